@@ -154,13 +154,21 @@ fn owner_waits(owner_cancelled: bool) {
             np::PANICKING = true;
         }
     }
+    // the child may also have finished before the owner gets to wait (no suspension then)
+    let finished_before: bool = !owner_cancelled && kani::any();
+    if finished_before {
+        unsafe { CHILD_DONE = true };
+        join.trigger();
+    }
     join.wait();
     assert!(
         !join.state.load(Ordering::Acquire),
         "C14: Join::wait returned while the coroutine has not finished (the scope would be left with a child still running)"
     );
     unsafe {
+        assert!(CHILD_DONE || owner_cancelled);
         kani::cover!(OWNER_SUSPENDED == 1 && CHILD_DONE, "owner really suspended and was resumed by the child's completion");
+        kani::cover!(finished_before && OWNER_SUSPENDED == 0, "child finished before wait(): no suspension");
     }
 }
 join_harness! { #[kani::unwind(3)] fn c14_join_wait_uncancelled_owner() { owner_waits(false) } }
